@@ -14,7 +14,7 @@ def fresh():
     subprocess.run(["rsync", "-a", "--delete", "--exclude", ".git", "/repo/", base + "/repo/"], check=True)
 os.makedirs(base, exist_ok=True)
 def sh(cmd, cwd):
-    p = subprocess.run(cmd, shell=True, cwd=cwd, env=env, capture_output=True, text=True, timeout=1200)
+    p = subprocess.run(cmd, shell=True, cwd=cwd, env=env, capture_output=True, text=True, errors="replace", timeout=1200)
     return p.returncode, (p.stdout + p.stderr)
 report = {"name": name, "breaks": breaks}
 # 1. clean tree: demo passes
